@@ -17,5 +17,7 @@ func init() {
 			c.Note("not decided: that each operation produces the result it would produce alone (value-level); races inside the standard library, snappy, json")
 			ruleLKShared(c)
 			ruleALOwner(c)
+			ruleCDPure(c)
+			ruleLKReent(c)
 		})
 }
